@@ -50,6 +50,7 @@ BOUNDS = {
     "target_total": "skeleton CUR8 (custom ids, dotted key, key equal to the machine id); every source node; target = any str of <= L chars",
     "malformed_loud": "valid config VALID (hierarchy, parallel, history, after, invoke, guards, actions, always, onDone, tags, meta); corruption = subtree index (all JSON subtrees) x 12 replacements of other JSON types (incl. the falsy ones False, 0, 0.0, '', [], {}); a wrong-typed target / guard / cond / src / initial must be rejected at creation; events {GO, NEXT, X, T}",
     "top_level": "x in 8 JSON-typed values",
+    "ambiguous_ids": "7 configs with duplicate or ambiguous ids (flat dotted keys of 2 and 3 segments beside a sibling / beside the nested path they spell, at the top level and nested; duplicate custom ids; a custom id equal to another state's path id): each must be rejected by create_machine() with an XStateMachineError",
 }
 ASSUMPTIONS = [
     "corrupted configs are concrete after the symbolic (position, replacement) choice; parsing and running them happens natively inside the path (common.native) - sound because no symbolic value enters",
@@ -77,8 +78,18 @@ def _gfp(g: Any) -> Any:
     return (g.type, repr(p) if not callable(p) else "<callable>", tuple(_gfp(c) for c in g.children), g.is_composite)
 
 
+def _canon_params(p: Any) -> Any:
+    """Action params with the two guard spellings of choose branches unified (the spelling is what the check varies;
+    whether both spellings BEHAVE alike is decided by the traces)."""
+    if isinstance(p, dict) and isinstance(p.get("conditions"), list):
+        q = dict(p)
+        q["conditions"] = [({("guard" if k == "cond" else k): v for k, v in c.items()} if isinstance(c, dict) else c) for c in p["conditions"]]
+        return q
+    return p
+
+
 def _afp(acts: Any) -> Any:
-    return tuple((a.type, repr(a.params)) for a in acts)
+    return tuple((a.type, repr(_canon_params(a.params))) for a in acts)
 
 
 def _tfp(t: Any) -> Any:
@@ -139,6 +150,11 @@ def canon(ch: Optional[Chooser] = None, vary: Optional[List[str]] = None) -> Dic
         k = c(3, "actions")
         return [[_tr(name)], _tr(name), [_tr(name)]][k]
 
+    def chooser() -> Any:
+        # a choose action whose branch guard is spelled 'guard' or 'cond' (g2 is false: the second branch must win)
+        key = "guard" if c(2, "guardkey") == 0 else "cond"
+        return {"type": "xstate.choose", "params": {"conditions": [{key: "g2", "actions": [_tr("choose.first")]}, {"actions": [_tr("choose.second")]}]}}
+
     def named_action() -> Any:
         k = c(4, "entry")
         return ["plain", ["plain"], {"type": "plain"}, [{"type": "plain"}]][k]
@@ -173,7 +189,8 @@ def canon(ch: Optional[Chooser] = None, vary: Optional[List[str]] = None) -> Dic
     E: Dict[str, Any] = {"states": {"e1": {"on": {"NEXT": {"target": "#m.C"}}}, "hh": {"type": "history"}}}
     if both == 0:
         E["initial"] = "e1"
-    cfg = {"id": "m", "initial": "A", "states": {"A": A, "B": B, "C": {"on": {"GO": trans("A"), "NEXT": {"target": "D"}}}, "D": D, "E": E}}
+    C: Dict[str, Any] = {"on": {"GO": trans("A"), "NEXT": {"target": "D"}}, "entry": [chooser()]}
+    cfg = {"id": "m", "initial": "A", "states": {"A": A, "B": B, "C": C, "D": D, "E": E}}
     return cfg
 
 
@@ -533,6 +550,46 @@ def malformed_loud(pos: int, rsel: int) -> bool:
     return verdict(why is None)
 
 
+AMBIGUOUS: List[Tuple[str, Dict[str, Any]]] = [
+    ("sibling x + flat key 'x.y'", {"id": "m", "initial": "x", "states": {"x": {}, "x.y": {}}}),
+    ("sibling x + flat key 'x.y.z'", {"id": "m", "initial": "x", "states": {"x": {}, "x.y.z": {}}}),
+    ("nested x{y} + flat key 'x.y'", {"id": "m", "initial": "x", "states": {"x": {"initial": "y", "states": {"y": {}}}, "x.y": {}}}),
+    ("nested x{y{z}} + flat key 'x.y.z'", {"id": "m", "initial": "x", "states": {"x": {"initial": "y", "states": {"y": {"initial": "z", "states": {"z": {}}}}}, "x.y.z": {}}}),
+    ("two states declare the custom id 'k'", {"id": "m", "initial": "a", "states": {"a": {"id": "k"}, "b": {"id": "k"}}}),
+    ("nested: q{x, 'x.y.z'}", {"id": "m", "initial": "q", "states": {"q": {"initial": "x", "states": {"x": {}, "x.y.z": {}}}}}),
+    ("custom id of a equals the path id of b ('m.b')", {"id": "m", "initial": "c", "states": {"a": {"id": "m.b"}, "b": {}, "c": {"on": {"GO": "#m.b"}}}}),
+]
+
+
+def ambiguous_ids(which: int) -> bool:
+    """
+    pre: gate('ambiguous_ids', which=which)
+    post: _
+    """
+    from xstate_statemachine import MachineLogic, create_machine
+    from xstate_statemachine.exceptions import XStateMachineError
+
+    name, cfg = AMBIGUOUS[pick(which, len(AMBIGUOUS))]
+    why = None
+    try:
+        m = create_machine(copy.deepcopy(cfg), logic=MachineLogic())
+        ids = [n.id for n in model.doc_order(m)] + [n.custom_id for n in model.doc_order(m) if getattr(n, "custom_id", None)]
+        dup = sorted({i for i in ids if ids.count(i) > 1})
+        why = f"{name}: create_machine() accepted it" + (f"; ids shared by several nodes: {dup}" if dup else "")
+    except XStateMachineError:
+        pass
+    except (TypeError, AttributeError, KeyError, ValueError) as e:
+        why = f"{name}: raw {type(e).__name__}: {e}"
+    if why:
+        _note(why)
+    return verdict(why is None)
+
+
+def kf_custom_id_equals_path(which: Any = 0, **_k: Any) -> bool:
+    """Known finding C18-custom-id-shadows-path-id: AMBIGUOUS[6] (the last entry; pick() maps out-of-range values onto it)."""
+    return not (0 <= which <= 5)
+
+
 def top_level(which: int) -> bool:
     """
     pre: gate('top_level', which=which)
@@ -560,7 +617,7 @@ def kf_target_not_string(**a: Any) -> bool:
 
 
 OBLIGATIONS = {"unresolvable_loud": unresolvable_loud, "spelling_equiv": spelling_equiv, "target_spelling": target_spelling, "target_total": target_total,
-               "malformed_loud": malformed_loud, "top_level": top_level}
+               "malformed_loud": malformed_loud, "top_level": top_level, "ambiguous_ids": ambiguous_ids}
 PROBES = {"target_spelling": [{"t": "#m.B.x"}, {"t": "x"}, {"t": ".x"}],
           "unresolvable_loud": [{"t": "q.x"}, {"t": "#z.k"}, {"t": "#q.A"}, {"eng": 1, "t": "z.y"}, {"t": "q.s1"}, {"t": "#z.W"}]}
 
@@ -605,4 +662,5 @@ def items(tier: str, seed: int) -> List[Dict[str, Any]]:
         out.append({"ob": "malformed_loud", "params": {"range": [lo, min(npaths, lo + step)]}, "timeout": 200,
                     "label": f"malformed_loud[subtrees {lo}-{min(npaths, lo + step) - 1}]"})
     out.append({"ob": "top_level", "params": {}, "timeout": 60, "label": "top_level"})
+    out.append({"ob": "ambiguous_ids", "params": {}, "timeout": 60, "label": "ambiguous_ids"})
     return out
